@@ -62,6 +62,8 @@ type faultBackend struct {
 	failUntil int64 // sim ns: writes fail while SimNow() < failUntil
 	failFrom  int64
 	failIdx   map[int]bool // write indexes that fail
+	flapPct   int          // flapping storage: each write fails with this probability (a function of its index and flapSalt)
+	flapSalt  int64
 	latencyUs int
 	Written   []string
 	ctxAware  bool
@@ -84,7 +86,7 @@ func (f *faultBackend) Write(ctx context.Context, path string, data []byte) erro
 		simrt.Sleep(time.Duration(f.latencyUs) * time.Microsecond)
 	}
 	now := simrt.SimNow()
-	if f.failIdx[idx] || (now >= f.failFrom && now < f.failUntil) {
+	if f.failIdx[idx] || (now >= f.failFrom && now < f.failUntil) || (f.flapPct > 0 && int(mix64(int64(idx)+f.flapSalt, "flap")%100) < f.flapPct) {
 		simrt.Count("fault.storage_write_err", 1)
 		simrt.Event("STORAGE-FAIL write#%d %s", idx, path)
 		f.Failed[dbMeasOf(path)]++
@@ -123,6 +125,8 @@ type node struct {
 	handler fasthttp.RequestHandler
 	boots   int
 	closed  bool
+	// inShutdown: the harness is inside coord.Shutdown() (set by n.shutdown)
+	inShutdown bool
 	// heap bytes allocated by the process while the last post() was inside
 	// the handler (one task runs at a time, so this is the request plus
 	// whatever background tasks were scheduled meanwhile)
@@ -183,6 +187,7 @@ func (n *node) boot() error {
 		ctxAware: n.knobs.CtxAwareStorage, Cancelled: map[string]int{}, Failed: map[string]int{}}
 	if n.fb != nil {
 		fb.failFrom, fb.failUntil = n.fb.failFrom, n.fb.failUntil
+		fb.flapPct, fb.flapSalt = n.fb.flapPct, n.fb.flapSalt+1000
 	}
 	n.fb = fb
 	n.coord = shutdown.New(60*time.Second, harnessLogger())
@@ -199,6 +204,13 @@ func (n *node) boot() error {
 	n.app = app
 	n.handler = app.Handler()
 	return nil
+}
+
+// shutdown runs the graceful shutdown and tells the monitors about it.
+func (n *node) shutdown() {
+	n.inShutdown = true
+	n.coord.Shutdown()
+	n.inShutdown = false
 }
 
 // onNode runs f as a task of the node and waits for it; returns false when
@@ -376,6 +388,41 @@ type walDeleteMonitor struct {
 	Early    int                     // recovery removed a file whose rows were not all stored
 	EarlyMsg string
 	Checked  int
+	// ghostDir != "": every WAL file a purge pass (not recovery, not the
+	// shutdown hook) is about to unlink gets a hard link there first, so that
+	// the harness can still read the inode afterwards. A WAL writer that keeps
+	// appending to a file after it was unlinked produces entries no replay can
+	// ever see; appendedAfterUnlink() returns their row ids. Arc never looks at
+	// ghostDir, and a hard link changes neither size nor mtime of the file.
+	ghostDir string
+	ghosts   []*ghostWAL
+	// sim time of the last listing of the WAL directory by the node (every
+	// maintenance tick starts with one): lets a workload place writes around
+	// the next tick, whose period it reads from the running configuration
+	lastGlobNS int64
+}
+
+type ghostWAL struct {
+	name   string // base name of the purged file
+	link   string
+	before map[int64]bool // rids of intact entries at the instant of the unlink
+	atNS   int64
+}
+
+// appendedAfterUnlink returns, per row id, the name of the purged WAL file
+// its entry was appended to after the purge had already unlinked that file.
+func (m *walDeleteMonitor) appendedAfterUnlink() map[int64]string {
+	out := map[int64]string{}
+	for _, g := range m.ghosts {
+		after := map[int64]bool{}
+		walFileRids(g.link, after)
+		for id := range after {
+			if !g.before[id] {
+				out[id] = g.name
+			}
+		}
+	}
+	return out
 }
 
 func (n *node) watchWALDeletes() *walDeleteMonitor {
@@ -386,9 +433,16 @@ func (n *node) watchWALDeletes() *walDeleteMonitor {
 			return
 		}
 		if op.Kind == "glob" {
+			m.lastGlobNS = simrt.SimNow()
 			// every purge pass and every recovery pass starts by listing the WAL
 			// directory: what this task read in an earlier pass no longer counts
 			delete(m.opened, t.ID())
+			return
+		}
+		if err != nil && op.Kind == "remove" && len(m.ghosts) > 0 && m.ghosts[len(m.ghosts)-1].name == filepath.Base(op.Path) {
+			// the unlink did not happen after all
+			os.Remove(m.ghosts[len(m.ghosts)-1].link)
+			m.ghosts = m.ghosts[:len(m.ghosts)-1]
 			return
 		}
 		if err != nil || op.Kind != "open" || !strings.HasSuffix(op.Path, ".wal") {
@@ -405,7 +459,16 @@ func (n *node) watchWALDeletes() *walDeleteMonitor {
 		}
 		t := simrt.CurTask()
 		if t == nil || !m.opened[t.ID()][op.Path] {
-			return // a purge, not a recovery delete
+			// a purge, not a recovery delete
+			if m.ghostDir != "" && !n.inShutdown {
+				g := &ghostWAL{name: filepath.Base(op.Path), before: map[int64]bool{}, atNS: simrt.SimNow()}
+				g.link = filepath.Join(m.ghostDir, fmt.Sprintf("%03d-%s", len(m.ghosts), g.name))
+				if os.Link(op.Path, g.link) == nil {
+					walFileRids(g.link, g.before)
+					m.ghosts = append(m.ghosts, g)
+				}
+			}
+			return
 		}
 		delete(m.opened[t.ID()], op.Path)
 		rids := map[int64]bool{}
